@@ -338,6 +338,7 @@ func trailingTokenRef(f string) func(b []byte) bool {
 		// a sequence of whitespace separated JSON values
 		return func(b []byte) bool {
 			dec := stdjson.NewDecoder(bytes.NewReader(b))
+			dec.UseNumber() // syntax only: a number outside the float64 range is still a number
 			for {
 				var v any
 				if err := dec.Decode(&v); err != nil {
